@@ -301,6 +301,11 @@ func prettyPath(p string) string {
 func (a *Analyzer) store(st *State, p *Ptr, v Term, t types.Type) {
 	if p.Elem != nil {
 		st.Ver[p.Elem.ID] = a.id()
+		if a.LogWrites {
+			if bt, ok := t.Underlying().(*types.Basic); ok && (bt.Kind() == types.Uint8 || bt.Kind() == types.Int8) {
+				st.Log = append(st.Log, &WriteRec{Base: p.Elem, Off: p.ElemOff, Width: 1, Val: v})
+			}
+		}
 		return
 	}
 	if sv, ok := v.(*Struct); ok {
